@@ -470,6 +470,10 @@ generators = {
 
 def _code_gen(ast_nodes: list[AstNode], resolver: Resolver, macro_definitions: MacroDefinitions) -> list[NodeProtocol]:
     code = []
+    # a label belongs to its scope from the first statement on (forward references), it hides outer definitions meanwhile.
+    for node in ast_nodes:
+        if isinstance(node, LabelAstNode):
+            resolver.current_scope.pending_labels.add(node.label)
     for node in ast_nodes:
         file_info = _get_file_info(node)
         generator = generators.get(node.kind)
